@@ -21,6 +21,9 @@ class Dataset:
         self.chroms = {}      # name -> sequence (str)
         self.genes = []       # dict(chr, gene_id, strand, transcripts=[(tid, exons)])
         self.reads = []       # dict(name, chr, start0, cigar, flag, mapq, tags, seq=None)
+        # transcript id -> the exon records AS WRITTEN into the GTF when they differ from the transcript's exon list: a line
+        # listed twice (concatenated annotations), overlapping exons, another order (descending on '-' as Ensembl writes them)
+        self.exon_lines = {}
 
     def add_chrom(self, name, length):
         self.chroms[name] = "".join(self.rng.choice("ACGT") for _ in range(length))
@@ -90,7 +93,7 @@ class Dataset:
             for tid, ex in g["transcripts"]:
                 out.append('%s\tsyn\ttranscript\t%d\t%d\t.\t%s\t.\tgene_id "%s"; transcript_id "%s";'
                            % (g["chr"], ex[0][0], ex[-1][1], g["strand"], g["gene_id"], tid))
-                for a, b in ex:
+                for a, b in self.exon_lines.get(tid, ex):
                     out.append('%s\tsyn\texon\t%d\t%d\t.\t%s\t.\tgene_id "%s"; transcript_id "%s";'
                                % (g["chr"], a, b, g["strand"], g["gene_id"], tid))
         return out
